@@ -7,6 +7,21 @@ import c18_net
 
 IMPORTS = "Cluster.Elect"
 
+# name ranks: small ranks are n<rank>@host; ODD + 8*k + v are names that differ from each other only
+# in ASCII case, are prefixes of each other or carry a trailing dot (harness/src/lib.rs node_name):
+# ...@HOST < ...@Host < ...@hos < ...@host < ...@host. < ...@hostx — distinct ranks, distinct peers
+ODD = 9000000000
+ODD_NAMES = [ODD + 0, ODD + 2, ODD + 4, ODD + 5, ODD + 6, ODD + 7]
+
+
+def name_pool(rng):
+    """a pool of node name ranks for one case: ordinary, or with case variants / prefixes"""
+    if rng.random() < 0.5:
+        return [1, 2, 3, 4]
+    pool = rng.sample(ODD_NAMES, 3) + [rng.choice([1, 2, 3])]
+    rng.shuffle(pool)
+    return pool
+
 
 def conn_term(c):
     return f"mkConn {'true' if c['by_a'] else 'false'} {c['nonce']} {c['ida']} {c['idb']}"
@@ -60,7 +75,7 @@ def gen_mirror_cases(chk, n_random):
             nonces = [0] * n
         else:
             nonces = [rng.choice([2**64 - 1, 2**63, 1, 2**32]) for _ in range(n)]
-        na, nb = rng.sample(range(1, 50), 2)
+        na, nb = rng.sample(range(1, 50), 2) if rng.random() < 0.7 else rng.sample(ODD_NAMES, 2)
         conns = [{"by_a": rng.random() < 0.5, "nonce": nonces[k], "ida": ida[k], "idb": idb[k]}
                  for k in range(n)]
         cases.append({"na": na, "nb": nb, "conns": conns})
@@ -74,7 +89,8 @@ def gen_raw_cases(chk, n):
         k = rng.choice([0, 1, 2, 2, 3, 4, 5])
         ids = rng.sample(range(1, 60), k)
         cands = [(ids[j], rng.choice([0, 1]), rng.choice([0, 0, 1, 2, 3, 7])) for j in range(k)]
-        this, peer = rng.choice([(1, 2), (2, 1), (3, 3), (5, 9)])
+        this, peer = rng.choice([(1, 2), (2, 1), (3, 3), (5, 9), (ODD, ODD + 5), (ODD + 5, ODD), (ODD + 4, ODD + 5),
+                                 (ODD + 6, ODD + 5), (ODD + 2, 3)])
         out.append({"this": this, "peer": peer, "cands": cands})
     return out
 
@@ -89,8 +105,9 @@ def gen_handler_cases(chk, n):
     rng = chk.rng
     out = []
     for _ in range(n):
-        this = rng.choice([1, 2, 3])
-        peers = [p for p in (1, 2, 3, 4) if p != this][:rng.choice([1, 2])]
+        pool = name_pool(rng)
+        this = pool[0]
+        peers = pool[1:][:rng.choice([1, 2, 3])]
         ops, ids, intr, registered, committed = [], [], set(), set(), set()
         nid = 0
         L = rng.choice([6, 10, 16, 24])
@@ -129,6 +146,15 @@ def erase_intruders(c):
     return {"this": c["this"], "ops": [c["ops"][k] for k in keep]}, keep
 
 
+def erase_other_peers(c, p):
+    """the history restricted to the sessions registered under peer name p (every session of a handler
+    history is registered exactly once): sessions of DISTINCT names never interact, so the answers
+    about p's sessions must not change"""
+    peer = {op[1]: op[2] for op in c["ops"] if op[0] == "reg"}
+    keep = [k for k, op in enumerate(c["ops"]) if peer.get(op[1]) == p]
+    return {"this": c["this"], "ops": [c["ops"][k] for k in keep]}, keep, peer
+
+
 def handler_oracle(c, outs):
     """'close the rest': after every ConnectionAuthenticated at most one accepted, authenticated,
     still open session per (distinctly named) peer remains."""
@@ -156,8 +182,9 @@ def gen_table_cases(chk, n):
     rng = chk.rng
     out = []
     for _ in range(n):
-        this = rng.choice([1, 2, 3])
-        peers = [p for p in (1, 2, 3, 4) if p != this][:rng.choice([1, 2])]
+        pool = name_pool(rng)
+        this = pool[0]
+        peers = pool[1:][:rng.choice([1, 2])]
         if rng.random() < 0.05:
             peers.append(this)  # a peer claiming our own name
         ops = []
@@ -376,7 +403,16 @@ def run(chk):
         erased.append((c2, keep))
         hlines.append(table_line(c))
         hlines.append(table_line(c2))
-    himpl = [canon_table(parse_term(x)) for x in run_harness(build, "eng_elect", hlines, shards=8)]
+    # other-peer erasure: per history one peer name; everything about sessions of other names removed
+    others = []
+    for c in hcs:
+        ps = sorted({op[2] for op in c["ops"] if op[0] == "reg"})
+        p = chk.rng.choice(ps) if len(ps) > 1 else None
+        others.append(erase_other_peers(c, p) + (p,) if p is not None else None)
+    olines = [table_line(o[0]) for o in others if o is not None]
+    himpl_all = run_harness(build, "eng_elect", hlines + olines, shards=8)
+    himpl = [canon_table(parse_term(x)) for x in himpl_all[:len(hlines)]]
+    oimpl = iter([canon_table(parse_term(x)) for x in himpl_all[len(hlines):]])
     hmodel = [canon_table(parse_term(x)) for x in coq_eval("C18h", IMPORTS, [table_term(c) for c in hcs])]
     for i, c in enumerate(hcs):
         iv, iv2, mv = himpl[2 * i], himpl[2 * i + 1], hmodel[i]
@@ -390,11 +426,27 @@ def run(chk):
                            "model": show_term(mv), "intruders": c["intruders"],
                            "without_intruders_line": table_line(c2), "impl_without_intruders": show_term(iv2)}, indent=1)
         ok, why = handler_oracle(c, iv)
+        omoved = []
+        if others[i] is not None:
+            c3, keep3, peer_of, p3 = others[i]
+            iv3 = next(oimpl)
+            chk.count("handler.other_peer_erasure")
+            for pos, k in enumerate(keep3):
+                op = c["ops"][k]
+                a, b = iv[k], iv3[pos]
+                if op[0] == "commith" and isinstance(a, tuple) and a[0] == "OCommitH":
+                    a = ("OCommitH", a[1], [j for j in a[2] if peer_of.get(j) == p3])
+                if op[0] in ("cc", "el", "ready", "commith") and a != b:
+                    omoved.append((k, op, show_term(iv[k]), show_term(b)))
         moved = [(k, c["ops"][k]) for pos, k in enumerate(keep)
                  if c["ops"][k][0] in ("cc", "el", "ready", "commith") and iv[k] != iv2[pos]]
         if not ok:
             chk.violation("duplicate connections are not all closed: " + why,
                           "C18 handler oracle rejects the implementation\n" + why + "\n" + desc)
+        elif omoved:
+            chk.violation("sessions of a DIFFERENT peer name changed the verdict about a peer's sessions",
+                          f"C18 other-peer-erasure oracle: with every session of the other names removed (kept peer {p3}: "
+                          f"{table_line(c3)}) the answers at {omoved[:3]} change — sessions of distinct names must not interact\n" + desc)
         elif moved:
             chk.violation("an unauthenticated connection changed the verdict about another session",
                           f"C18 unauthenticated-powerless oracle: the answers at ops {moved[:3]} change when the "
